@@ -897,14 +897,26 @@ fn dlt_message_intern<'a>(
             ParsedMessage::FilteredOut(payload_length as usize),
         ));
     }
-    let (i, payload) = if header.endianness == Endianness::Big {
-        dlt_payload::<BigEndian>(after_headers, verbose, payload_length, arg_count, msg_type)?
+    // the message ends where its length field says, whatever the payload content claims
+    let (after_message, payload_bytes) = take(payload_length)(after_headers)?;
+    let payload_res = if header.endianness == Endianness::Big {
+        dlt_payload::<BigEndian>(payload_bytes, verbose, payload_length, arg_count, msg_type)
     } else {
-        dlt_payload::<LittleEndian>(after_headers, verbose, payload_length, arg_count, msg_type)?
+        dlt_payload::<LittleEndian>(payload_bytes, verbose, payload_length, arg_count, msg_type)
     };
-    dbg_parsed("payload", after_headers, i, &payload);
+    let (i, payload) = match payload_res {
+        Ok(parsed) => parsed,
+        // all declared bytes are present, so running out of them is not a reason to wait for more
+        Err(nom::Err::Incomplete(_)) => {
+            return Err(Error(DltParseError::ParsingHickup(
+                "payload does not fit into the declared message length".to_string(),
+            )))
+        }
+        Err(e) => return Err(e),
+    };
+    dbg_parsed("payload", payload_bytes, i, &payload);
     Ok((
-        i,
+        after_message,
         ParsedMessage::Item(Message {
             storage_header: storage_header_shifted.map(|shs| shs.0),
             header,
